@@ -24,6 +24,7 @@ class Obs:
     def cb_start(self, bid, inline=False): pass
     def cb_end(self, bid): pass
     def note(self, *a): pass
+    def factory_kw(self, kind, kw): pass
     def workers_created(self, names, creator): pass
     stalled = False
     stall_waiters = ()
@@ -336,6 +337,7 @@ class ExecutorRegistry:
 
     def get(self, n_jobs, **kw):
         self.obs.note("factory_executor", n_jobs)
+        self.obs.factory_kw("executor", kw)
         ex = self.current
         if ex is not None and ex.state == "run" and ex.n == n_jobs:
             self.obs.note("executor_reused")
